@@ -22,7 +22,7 @@ import oracles
 PID = 'C03'
 MODNAME = 'C03'
 PROPS_FILE = 'Props/C03.v'
-COQ_FILES = ['Proofs/Polymorph.v', 'Props/C03.v']
+COQ_FILES = ['Proofs/Polymorph.v', 'Proofs/RegOrder.v', 'Props/C03.v']
 ASSUMPTIONS = ['registries have distinct class names (same-named classes collide on the tag by design)']
 
 
